@@ -252,3 +252,25 @@ func modelFor(o *Obligation, tmpDir string, timeoutS int) string {
 	_, out, _ := runSolver(solvers[0], file, timeoutS)
 	return out
 }
+
+// warmSolvers starts every back end once on a trivial query, so that the first real query of a run (right after a
+// restore the binaries and their libraries are not in the page cache yet) does not pay the start-up cost out of its
+// time limit. Nothing depends on the answers.
+func warmSolvers() {
+	dir := filepath.Join(os.TempDir(), "gowp-q")
+	os.MkdirAll(dir, 0o755)
+	file := filepath.Join(dir, "warm_"+itoa(os.Getpid())+".smt2")
+	if os.WriteFile(file, []byte("(declare-const x Int)\n(assert (> x 0))\n(check-sat)\n"), 0o644) != nil {
+		return
+	}
+	defer os.Remove(file)
+	var wg sync.WaitGroup
+	for _, sd := range solvers {
+		wg.Add(1)
+		go func(sd solverDef) {
+			defer wg.Done()
+			runSolver(sd, file, 60)
+		}(sd)
+	}
+	wg.Wait()
+}
